@@ -26,10 +26,14 @@ class Boom(Exception):
     pass
 
 
+class BoomBase(BaseException):
+    """A holder may also leave with a BaseException that is not an Exception (the SDK's own SuspendExecution is one)."""
+
+
 def run_lock_program(prog, schedule=None, seed=0, counter=False):
     """prog: list (per thread) of list of bodies; body in {'ok','raise'}.  Returns dict with the derived
     model action list, per-request outcomes, the sim decisions."""
-    sim = Sim(schedule=schedule, seed=seed, policy="random", max_points=20000, wall_limit=20)
+    sim = Sim(schedule=schedule, seed=seed, policy="pct" if (seed or 0) % 3 == 0 and not schedule else "random", max_points=20000, wall_limit=20)
     out = {}
     with patched(sim):
         from aws_durable_execution_sdk_python.threading import OrderedCounter, OrderedLock
@@ -57,8 +61,10 @@ def run_lock_program(prog, schedule=None, seed=0, counter=False):
                                 cs_log.append(("out", r))
                                 if body == "raise":
                                     raise Boom(f"boom{r}")
+                                if body == "raiseB":
+                                    raise BoomBase(f"boomB{r}")
                             outcomes[r] = "doneOk"
-                    except Boom:
+                    except (Boom, BoomBase):
                         outcomes[r] = "doneExc"
                     except OrderedLockError:
                         outcomes[r] = "lockErr"
@@ -117,7 +123,7 @@ def oracle(ctx, prog, res, component):
     if entries != [r for r in arrivals if r in set(entries)]:
         ctx.violate("C19.fifo", case, {"arrivals": arrivals, "entries": entries}, component, kind="schedule")
     # break semantics
-    raisers = [ti * 100 + j for ti, b in enumerate(prog) for j, x in enumerate(b) if x == "raise"]
+    raisers = [ti * 100 + j for ti, b in enumerate(prog) for j, x in enumerate(b) if x in ("raise", "raiseB")]
     broke = [r for r in raisers if res["outcomes"].get(r) == "doneExc"]
     for r in raisers:
         if r in entries and res["outcomes"].get(r) != "doneExc":
@@ -190,13 +196,13 @@ def gen_prog(rng):
     prog = [["ok"] * rng.choice([1, 1, 2, 3]) for _ in range(k)]
     if rng.random() < 0.6:
         ti = rng.randrange(k)
-        prog[ti][rng.randrange(len(prog[ti]))] = "raise"
+        prog[ti][rng.randrange(len(prog[ti]))] = rng.choice(["raise", "raise", "raiseB"])
     return prog
 
 
 def run(ctx):
     # exhaustive small scope: 2 threads x 1 round, every schedule prefix of length 8 over 3 choices
-    small = [[["ok"], ["ok"]], [["raise"], ["ok"]], [["ok"], ["raise"], ["ok"]]]
+    small = [[["ok"], ["ok"]], [["raise"], ["ok"]], [["ok"], ["raise"], ["ok"]], [["raiseB"], ["ok"], ["ok"]]]
     depth = 5 if not ctx.thorough else 7
     for prog in small:
         for sched in itertools.product(range(3), repeat=depth):
